@@ -408,7 +408,7 @@ Fixpoint dec_digits (fuel : nat) (z : Z) (acc : list byte) : list byte :=
     if z <? 10 then d :: acc else dec_digits f (z / 10) (d :: acc)
   end.
 Definition dec_string (z : Z) : list byte :=
-  let a := Z.abs z in
+  let a := if z <? 0 then - z else z in
   let ds := dec_digits (S (Z.to_nat (Z.log2 a))) a [] in
   if z <? 0 then x2d :: ds else ds.
 
